@@ -6,7 +6,7 @@
 //! deterministic list of cases, lets both builds compute a digest of every observable output per
 //! case and compares the digests line by line.
 
-use crate::c_animator::*;
+use mv_core::c_animator::*;
 use mv_core::desc::*;
 use mina::prelude::*;
 use mv_engine::{Obs, Run, Tier};
